@@ -278,3 +278,68 @@ fn c07_truncate_utf8_two_chars() {
     kani::cover!(n1 == 1 && length >= 1);
     kani::cover!(c1 == '\u{D7FF}', "last char before the surrogate gap");
 }
+
+fn descr_flba_decimal(legacy_converted_type_only: bool) -> ColumnDescriptor {
+    use crate::basic::{ConvertedType, LogicalType, Type as PhysicalType};
+    use crate::schema::types::{ColumnPath, Type};
+    use std::sync::Arc;
+    let b = Type::primitive_type_builder("d", PhysicalType::FIXED_LEN_BYTE_ARRAY).with_length(2).with_precision(4).with_scale(0);
+    let b = if legacy_converted_type_only {
+        b.with_converted_type(ConvertedType::DECIMAL)
+    } else {
+        b.with_logical_type(Some(LogicalType::Decimal { scale: 0, precision: 4 }))
+    };
+    let tpe = b.build().unwrap();
+    ColumnDescriptor::new(Arc::new(tpe), 0, 0, ColumnPath::from("d"))
+}
+
+fn minmax_step_decimal_flba(legacy: bool) {
+    let descr = descr_flba_decimal(legacy);
+    let be = |x: i16| FixedLenByteArray::from(x.to_be_bytes().to_vec());
+    let val = |f: &FixedLenByteArray| i16::from_be_bytes([f.data()[0], f.data()[1]]);
+    let w: i16 = kani::any();
+    let lo: i16 = kani::any();
+    let hi: i16 = kani::any();
+    kani::assume(lo <= w && w <= hi);
+    let v: i16 = kani::any();
+    let mut min = Some(be(lo));
+    let mut max = Some(be(hi));
+    let nv = be(v);
+    update_min(&descr, &nv, &mut min);
+    update_max(&descr, &nv, &mut max);
+    let (mn, mx) = (val(min.as_ref().unwrap()), val(max.as_ref().unwrap()));
+    assert!(mn <= w && w <= mx && mn <= v && v <= mx, "min/max bound every value under the SIGNED decimal order");
+    assert!((mn == lo || mn == v) && (mx == hi || mx == v), "attained");
+    kani::cover!(v < 0 && lo >= 0 && mn == v, "a negative value becomes the minimum");
+    kani::cover!(v >= 0 && hi < 0 && mx == v, "a non-negative value becomes the maximum");
+    std::mem::forget(min);
+    std::mem::forget(max);
+    std::mem::forget(nv);
+    std::mem::forget(descr);
+}
+
+//@ tier: quick
+//@ timeout: 600
+//@ functions: parquet::column::writer::{update_min, update_max, compare_greater, compare_greater_byte_array_decimals} for FIXED_LEN_BYTE_ARRAY decimals declared by LogicalType::Decimal
+//@ bound: inductive step of the running min/max on a FIXED_LEN_BYTE_ARRAY(2) DECIMAL(4,0) column (real ColumnDescriptor, logical type annotation), every 16-bit two's-complement value: bounds hold under the signed order; unwind 8
+//@ assume: invariant: lo <= w <= hi (signed) for a witness value already seen
+//@ stub: alloc::fmt::format -> empty String
+#[kani::proof]
+#[kani::unwind(8)]
+#[kani::stub(alloc::fmt::format, stub_format)]
+fn c07_minmax_step_decimal_flba_logical() {
+    minmax_step_decimal_flba(false);
+}
+
+//@ tier: quick
+//@ timeout: 600
+//@ functions: parquet::column::writer::{update_min, update_max, compare_greater} for FIXED_LEN_BYTE_ARRAY decimals declared by the legacy ConvertedType::DECIMAL only
+//@ bound: as above with the column annotated by the legacy converted type alone (files written by older writers); unwind 8
+//@ assume: invariant: lo <= w <= hi (signed)
+//@ stub: alloc::fmt::format -> empty String
+#[kani::proof]
+#[kani::unwind(8)]
+#[kani::stub(alloc::fmt::format, stub_format)]
+fn c07_minmax_step_decimal_flba_converted() {
+    minmax_step_decimal_flba(true);
+}
